@@ -39,14 +39,13 @@ func (P) Engine() string { return "E1" }
 
 func (P) Describe() harness.Description {
 	return harness.Description{
-		MustHit: []string{"outlier_valid_and_invalid_rule_for_one_resource", "element_replaced_in_loaded_slice_and_reloaded", "invalid_rule_in_load", "nil_rule_in_load", "identical_reload", "probe_blocked_by_enforced_rule", "per_resource_load"},
+		MustHit: []string{"per_resource_load_with_a_rule_of_another_resource", "outlier_valid_and_invalid_rule_for_one_resource", "element_replaced_in_loaded_slice_and_reloaded", "invalid_rule_in_load", "nil_rule_in_load", "identical_reload", "probe_blocked_by_enforced_rule", "per_resource_load"},
 		Level:   "exploration",
 		Rule: "case = (table of 6-24 rule specifications over the six modules: valid never-blocking, valid always-blocking, invalid in exactly one field-wise way (built so that they would block a probe if enforced), nil elements; 5-30 operations: LoadRules, LoadRulesOfResource, ClearRules, ClearRulesOfResource, identical reload with freshly allocated objects, probe). " +
 			"After every call: no panic escaped; the getters equal the rule-set model (per resource, in order); the enforcement accessors (traffic controllers / breakers / enforced outlier rule) carry exactly the model's rules; probe traffic on every resource is blocked by exactly the first module that holds an enforced blocking rule and otherwise passes; an identical reload reports 'unchanged'. " +
 			"non-trivial = a load mixing valid and invalid rules replaced earlier rules and a probe decision changed; distinct = hash(config, ops). The simulation content is thin here (history generation, reference model, shrinking, replay, virtual time for the probes).",
 		Assumptions: []string{
 			"rule objects are freshly allocated for every call and never mutated by the harness",
-			"a per-resource load only carries rules of that resource (mismatched resources are outside the generated domain)",
 			"enum values outside the defined constants that the validity check accepts are outside the generated domain",
 			"circuit-breaker and outlier enforcement is compared through overlay-only read accessors, not through traffic",
 		},
@@ -111,7 +110,11 @@ func (P) Gen(rng *sim.Rng, tier string) *harness.Case {
 			var l []int
 			for _, i := range cand {
 				if res >= 0 && cfg.Table[i].Res != res && !cfg.Table[i].Nil {
-					continue
+					// now and then a per-resource load carries a rule that names another resource (a caller's
+					// slip): it is not a rule of the resource being loaded and must govern nothing
+					if m == rs.Outlier || !rng.Chance(0.12) {
+						continue
+					}
 				}
 				if rng.Chance(0.55) {
 					l = append(l, i)
@@ -443,12 +446,16 @@ func (P) Exec(c *harness.Case) *harness.Outcome {
 			res := rs.ResName(op.E)
 			if op.K == "loadres" {
 				o.Probe("per_resource_load")
-				// domain: a per-resource load carries rules of that resource only
+				// a rule that names another resource is ignored by the reference (see apply); the outlier call
+				// takes a single rule, its lists carry rules of that resource only
 				k := 0
 				for _, r := range list {
-					if r.Nil || r.Res == op.E {
+					if r.Nil || r.Res == op.E || m != rs.Outlier {
 						list[k] = r
 						k++
+						if !r.Nil && r.Res != op.E {
+							o.Probe("per_resource_load_with_a_rule_of_another_resource")
+						}
 					}
 				}
 				list = list[:k]
